@@ -412,3 +412,26 @@ def exp_constant_folded(ode, name, text_expr):
                 if not any(abs(float(f) - c) <= 1e-12 * abs(c) for c in lits if c) and not any(abs(abs(float(f)) - c) <= 1e-12 * abs(c) for c in lits if c):
                     return True
     return False
+
+
+def count_calls(text, names):
+    return sum(len(re.findall(rf"(?<![\w.]){n}\s*\(", text)) for n in names)
+
+
+@matcher("C15")
+def c15_matchers(v, text="", **kw):
+    """sympy folds floor()/ceiling() of a bounded non-constant argument to a constant while the expression is
+    built, and the constant depends on what was evaluated earlier in the process (0 or -1 for
+    floor(0.25/(abs(E) + 0.75)), reproduced in isolation: /verif/tools/sympy_floor_history.py)."""
+    d = v.get("detail", {})
+    if v.get("kind") == "rhs_differs_from_myokit" and text and d.get("code"):
+        n_model = count_calls(text, ["floor", "ceil"]) + text.count("//")
+        n_code = count_calls(d["code"], ["numpy.floor", "numpy.ceil", "floor", "ceil"])
+        body = d["code"][d["code"].find("def rhs") :]
+        body = body[: body.find("def monitor_values")] if "def monitor_values" in body else body
+        n_code = len(re.findall(r"numpy\.(floor|ceil)\(", body))
+        if n_model > 0 and n_code < n_model:
+            return "C15-sympy-folds-floor-to-a-history-dependent-constant"
+    if v.get("kind") == "saved_imported_model_rejected" and "'oo'" in (d.get("exc") or "") and "oo" in (d.get("saved_line") or ""):
+        return "C15-simplify-in-writer-emits-infinite-bound"
+    return None
